@@ -425,7 +425,7 @@ def slice1_all(fw, fnnode):
 
 
 # ----------------------------------------------------------------------------- W9 R-fmt
-def fmt_value(fw, macro_node, helper):
+def fmt_value(fw, macro_node, helper, str_args=False):
     """R-fmt: a `format!(LIT, args..)` whose *value* matters is redirected to a prelude helper that takes the
     same literal and arguments and has an uninterpreted-function spec over (literal, arguments): a changed
     literal or argument changes the specified value."""
@@ -436,7 +436,9 @@ def fmt_value(fw, macro_node, helper):
         raise WeaveError("%s:%d R-fmt: not a format!(\"..\", ..) invocation" % (fw.rel, fw.line_of(macro_node["span"][0])))
     lit, args = m.group(1), (m.group(2) or "").strip().rstrip(",")
     inline = re.findall(r"\{([A-Za-z_][A-Za-z_0-9]*)(?::[^}]*)?\}", lit.replace("{{", ""))
-    allargs = [a for a in [args] if a] + inline
+    allargs = [a.strip() for a in args.split(",") if a.strip()] + inline
+    if str_args:
+        allargs = ["&*" + a for a in allargs]   # `format!` borrows its arguments; `&*x` is `&str` for `x: String | &str`
     fw.replace(macro_node["span"][0], macro_node["span"][1], "crate::verif_prelude::%s(%s, %s)" % (helper, lit, ", ".join(allargs)), "W9-R-fmt")
 
 
@@ -821,3 +823,66 @@ def once_chain_map_find(fw, find_node, us, ps):
 def eta_ctor(fw, path_node, param, ty, ctor_expr, ret, ens):
     """R-eta: a constructor used as a function value, `.map(Type::Raw)` -> `.map(|p: T| -> (t: R) ensures .. { Type::Raw(p) })`"""
     fw.replace(path_node["span"][0], path_node["span"][1], "|%s: %s| -> (%s) ensures %s, { %s }" % (param, ty, ret, ens, ctor_expr), "W7-R-eta")
+
+
+# ----------------------------------------------------------------------------- W6 R-idx with filter / W8 closure inlining
+def for_filter_to_index_loop(ctx, fw, unit, loopnode, seq, ivar, cvar=None):
+    """R-idx-filter: `for P in SEQ.iter().filter(|q| C)[.enumerate()] { BODY }` ->
+         { let mut I = 0; let mut N = 0;
+           while I < SEQ.len() <spec> { let e__ = &SEQ[I]; I = I + 1; { let q = &e__; if !(C) { continue; } }
+                                        let P = e__ | (N, e__); N = N + 1; BODY } }
+    The filter condition C and BODY are copied verbatim; `q` is bound to a reference to the element, which is what
+    `Iterator::filter` passes to its closure; with `.enumerate()` the index counts the elements that passed."""
+    hdr = " ".join(fw.text(loopnode["expr_span"]).split())
+    kids = [c for c in fw.children.get(loopnode["id"], []) if c["kind"] == "method_call" and c["span"] == loopnode["expr_span"]]
+    if len(kids) != 1:
+        raise WeaveError("%s:%d R-idx-filter: loop header is not a method chain" % (fw.rel, fw.line_of(loopnode["span"][0])))
+    top = kids[0]
+    enum = top["method"] == "enumerate"
+    flt = _recv_call(fw, top, "filter") if enum else top
+    if flt["method"] != "filter":
+        raise WeaveError("%s:%d R-idx-filter: loop header `%s` is not SEQ.iter().filter(..)[.enumerate()]" % (fw.rel, fw.line_of(loopnode["span"][0]), hdr))
+    it = _recv_call(fw, flt, "iter")
+    if " ".join(fw.text(it["receiver_span"]).split()).replace(" ", "") != seq.replace(" ", ""):
+        raise WeaveError("%s:%d R-idx-filter: loop iterates over `%s`, not `%s`" % (fw.rel, fw.line_of(loopnode["span"][0]), fw.text(it["receiver_span"]), seq))
+    cl = [c for c in fw.children.get(flt["id"], []) if c["kind"] == "closure" and c["span"] == flt["args"][0]["span"]]
+    if len(cl) != 1 or len(cl[0]["inputs"]) != 1 or len(cl[0]["inputs"][0]["names"]) != 1:
+        raise WeaveError("%s:%d R-idx-filter: filter argument is not a one-parameter closure" % (fw.rel, fw.line_of(loopnode["span"][0])))
+    q = cl[0]["inputs"][0]["names"][0]
+    cond = fw.text(cl[0]["body_span"])
+    pat = fw.text(loopnode["pat_span"])
+    cvar = cvar or (ivar + "_n")
+    fs, bs = loopnode["span"][0], loopnode["body_span"][0]
+    fw.replace(fs, bs, "{ let mut %s: usize = 0; let mut %s: usize = 0;\n while %s < %s.len() " % (ivar, cvar, ivar, seq), "W6-R-idx-filter", header=hdr)
+    elem = "(%s, e__)" % cvar if enum else "e__"
+    fw.insert(bs + 1, "\n let e__ = &%s[%s]; %s = %s + 1;\n { let %s = &e__; if !(%s) { continue; } }\n let %s = %s; %s = %s + 1;\n"
+              % (seq, ivar, ivar, ivar, q, cond, pat, elem, cvar, cvar), rule="W6-R-idx-filter")
+    fw.insert(loopnode["span"][1] - 1, "} ", rule="W6-R-idx-filter", prio=9)
+    fw.insert(bs, "\n        invariant\n            %s <= %s.len(),\n            %s <= %s,\n" % (ivar, seq, cvar, ivar), rule="W6-R-idx-filter")
+    loopnode["_ridx"] = {"ivar": ivar, "seq": seq, "zip": None}
+
+
+def inline_closure(fw, fnnode, name, param_decl):
+    """W8: a `let`-bound, non-escaping, non-recursive closure that captures `&mut` locals is inlined at its direct
+    call sites: `let mut NAME = |p: T| BLOCK;` is removed and every statement `NAME(ARG);` becomes
+    `{ let p: T = ARG; BLOCK }` (beta-reduction; BLOCK is copied verbatim, with the edits woven inside it)."""
+    let = fw.let(fnnode, name)
+    cls = [c for c in fw.children.get(let["id"], []) if c["kind"] == "closure" and c["span"] == let["init_span"]]
+    if len(cls) != 1 or not cls[0]["body_is_block"]:
+        raise WeaveError("%s: W8: `let %s` is not bound to a block-bodied closure" % (fw.rel, name))
+    c = cls[0]
+    calls = [k for k in fw.in_fn(fnnode, ("call",)) if k["func"] == name]
+    if not calls:
+        raise WeaveError("%s: W8: closure `%s` is never called" % (fw.rel, name))
+    others = [p for p in fw.in_fn(fnnode, ("path",)) if p["text"] == name and not any(k["func_span"] == p["span"] for k in calls)]
+    if others:
+        raise WeaveError("%s: W8: closure `%s` escapes (used other than as a direct callee)" % (fw.rel, name))
+    fw.replace(let["span"][0], let["span"][1], "", "W8-inline-closure", what="definition of closure " + name)
+    for k in calls:
+        stmt = fw.stmt_of(k)
+        if stmt["kind"] != "stmt_expr" or len(k["args"]) != 1:
+            raise WeaveError("%s: W8: call of `%s` is not a statement with one argument" % (fw.rel, name))
+        arg = fw.text(k["args"][0]["span"])
+        fw.replace(stmt["span"][0], stmt["span"][1], "", "W8-inline-closure", what="call of closure " + name)
+        fw.copy(c["body_span"][0], c["body_span"][1], stmt["span"][0], pre="{ let %s = %s;\n" % (param_decl, arg), suf="\n}", rule="W8-inline-closure")
+    return c
